@@ -55,6 +55,12 @@ void property(const pbt::Tape& t, pbt::Ctx& ctx) {
     // report states are the known finding below. Triggered events are generated for the other eight integrators.)
     const bool withEvents = g.boolean() && integ != CPodes; const double evW = 20 + 60 * g.unit(), evC = 0.01 + 0.05 * g.unit();   // witness zero every pi/w = 0.04..0.16
     Vec3 grav(g.real(-10, 10), g.real(-10, 10), g.real(-10, 10));
+    // (drawn last so that older tapes keep their meaning; word 0 = feature off) a fixed step size for any non-CPodes method -- the
+    // step then cannot be reduced, which is when a non-converged step is accepted -- and a velocity-proportional damper that
+    // makes the implicit iterations of Verlet / SemiExplicitEuler2 slow to converge (contraction ~ h*c/(2m))
+    const bool fixedStep = g.pick(4) == 3 && integ != CPodes; const double hFix = 0.002 * std::pow(10.0, g.unit());   // 0.002 .. 0.02
+    const int dampMode = g.pick(3); const double dampC = dampMode == 2 ? g.logreal(20, 400) : 2.0;
+    if (ctx.wantDesc) { ctx.desc << "fixedStep=" << (fixedStep ? hFix : 0.0) << " damper=" << (dampMode ? dampC : 0.0) << "\n"; }
     if (ctx.wantDesc) { cm.describe(ctx.desc); ctx.desc << "integrator=" << integName(integ) << " events=" << withEvents << " accuracy=" << acc << " infNorm=" << inf << " consTol=" << (setTol ? acc * tolFactor : -1) << " projectEveryStep=" << projEvery
         << " allowInterpolation=" << interp << " projectInterpolated=" << (projMode < 2 ? "default" : projInterp ? "true" : "false") << " returnEveryStep=" << everyStep << " T=" << T << " dt=" << dt << " gravity=" << grav << "\n"; }
     consgen::labelModel(ctx, cm);
@@ -70,6 +76,7 @@ void property(const pbt::Tape& t, pbt::Ctx& ctx) {
     consgen::BuiltCons m(cm);
     Force::UniformGravity(m.forces, m.matter, grav);
     if (m.mb.size() >= 2) Force::TwoPointLinearSpring(m.forces, m.mb[0], Vec3(0.3, 0.2, -0.1), m.mb.back(), Vec3(0.1, 0, 0.2), 5.0, 0.7);
+    if (dampMode) { Force::GlobalDamper(m.forces, m.matter, dampC); ctx.label(dampMode == 2 ? "damper:stiff" : "damper:mild"); }
     m.forces.setNumberOfThreads(1);
     if (withEvents) { m.sys.addEventHandler(new TimeWitness(evW, evC)); ctx.label("with-triggered-events"); }
     m.finish(cm.spec); m.setState(cm.spec);
@@ -92,6 +99,7 @@ void property(const pbt::Tape& t, pbt::Ctx& ctx) {
     in->setAccuracy(acc); in->setUseInfinityNorm(inf); if (setTol) in->setConstraintTolerance(acc * tolFactor);
     in->setProjectEveryStep(projEvery); in->setAllowInterpolation(interp); if (projMode >= 2) in->setProjectInterpolatedStates(projInterp); in->setReturnEveryInternalStep(everyStep);
     if (integ == EE) in->setFixedStepSize(0.002);
+    else if (fixedStep) { in->setFixedStepSize(hFix); ctx.label("fixed-step"); ctx.label(std::string("fixed-step:") + integName(integ)); if (dampMode == 2) ctx.label("fixed-step+stiff-damper"); }
     in->setInternalStepLimit(2500);   // a run that needs more internal steps is ended (classified), never judged as failing
     int nStates = 0, nInterp = 0, nq4 = 0; bool holo = false, nonholo = false; double worst = 0;
     const bool cpodesKnown = integ == CPodes && ctx.isKnownListed("cpodes-report-states-off-manifold");
@@ -113,7 +121,7 @@ void property(const pbt::Tape& t, pbt::Ctx& ctx) {
             for (int i = 0; i < nuerr; ++i) ue[i] = c.getUErr()[i] * c.getUErrWeights()[i];
             const double n1 = std::max(nrm(pe, inf), nrm(qe, inf)), n2 = nrm(ue, inf);
             // a fixed-step method without error control may legitimately blow up (non-finite state): that ends the case
-            if (!in->methodHasErrorControl() && !(std::isfinite(n1) && std::isfinite(n2) && std::isfinite(c.getY().norm()))) { ctx.label("fixed-step-blow-up"); break; }
+            if ((!in->methodHasErrorControl() || fixedStep) && !(std::isfinite(n1) && std::isfinite(n2) && std::isfinite(c.getY().norm()))) { ctx.label("fixed-step-blow-up"); break; }
             nStates++; if (isInterp) nInterp++; nq4 = nquat; if (mp > 0) holo = true; if (nuerr > mp) nonholo = true;
             bool judged = !isInterp || projInterp;
             // known finding: CPodes returns CPODES-interpolated, unprojected states at report times and does not flag
@@ -140,9 +148,9 @@ void property(const pbt::Tape& t, pbt::Ctx& ctx) {
 pbt::Config config() {
     pbt::Config c; c.prop = "C21"; c.K = consgen::K; c.minUnits = 2;
     c.quick = {800, 3000, 12, 30}; c.thorough = {8000, 30000, 12, 300};
-    c.rule = "rapidcheck tape -> consgen model (mbgen tree of 1..5 bodies + 1..3 constraints of any built-in type), uniform gravity + one spring, assembled with project(1e-9); integrator in the nine built-ins; accuracy 1e-2..1e-5; RMS/infinity norm; explicit or default constraint tolerance; project-every-step, interpolation, interpolated-state projection, return-every-step generated; report grid 0.004..0.034 over T = 0.15..0.5. Non-trivial: >= 1 holonomic constraint and (a quaternion in use or a nonholonomic constraint) and >= 1 interpolated state examined; distinct by tape hash.";
+    c.rule = "rapidcheck tape -> consgen model (mbgen tree of 1..5 bodies + 1..3 constraints of any built-in type), uniform gravity + one spring + (2 of 3 cases) a GlobalDamper (mild c=2 or stiff c=20..400), assembled with project(1e-9); integrator in the nine built-ins; accuracy 1e-2..1e-5; fixed step size 0.002..0.02 in 1 of 4 non-CPodes cases; RMS/infinity norm; explicit or default constraint tolerance; project-every-step, interpolation, interpolated-state projection, return-every-step generated; report grid 0.004..0.034 over T = 0.15..0.5. Non-trivial: >= 1 holonomic constraint and (a quaternion in use or a nonholonomic constraint) and >= 1 interpolated state examined; distinct by tape hash.";
     c.assumptions = {"norm = max(norm(qerr[0:mp].*qerrWeights), norm(quaternion rows)) and norm(uerr.*uerrWeights), RMS or infinity as configured (the documented projection norm, probe Y/AD)", "assembly failures, integrator exceptions and state-dependent degenerate geometry are rejections", "interpolated states are judged only when interpolated-state projection is on"};
-    c.requiredLabels = {"with-triggered-events", "integ:ExplicitEuler", "integ:CPodes", "integ:Verlet", "integ:RungeKuttaMerson", "interpolated-states-examined", "nonholonomic", "quaternions"};
+    c.requiredLabels = {"with-triggered-events", "integ:ExplicitEuler", "integ:CPodes", "integ:Verlet", "fixed-step:Verlet", "fixed-step+stiff-damper", "integ:RungeKuttaMerson", "interpolated-states-examined", "nonholonomic", "quaternions"};
     c.directed.push_back({"cpodes-report-state-off-manifold", "cpodes-report-states-off-manifold", [](pbt::Ctx& ctx) {
         // pendulum on a rod constraint, CPodes, report grid finer than the steps
         MultibodySystem sys; SimbodyMatterSubsystem matter(sys); GeneralForceSubsystem forces(sys); Force::UniformGravity(forces, matter, Vec3(0, -9.8, 0));
